@@ -1128,7 +1128,13 @@ class Authenticated(BaseClientHandler):
         # Build a set of all returned folder names so we can verify
         # \HasChildren / \HasNoChildren correctness.
         #
-        all_names = {name for name, _, _ in results}
+        # NOTE: The names of *all* mailboxes, not only of those that matched:
+        #       a mailbox has children even if the pattern did not ask for
+        #       them ('LIST "" "%"' lists 'a' but not 'a/b').
+        #
+        all_names = set()
+        async for row in self.server.db.query("SELECT name FROM mailboxes"):
+            all_names.add("INBOX" if row[0].lower() == "inbox" else row[0])
         for mbox_name, attributes, child_info in results:
             has_children = any(n.startswith(mbox_name + "/") for n in all_names)
             if has_children:
